@@ -336,6 +336,18 @@ mutual
     | k :: ks => wellFormed k && wellFormedList ks
 end
 
+/-- an attribute value that survives write + read unchanged: every character XML-legal (`legalChar`:
+TAB, LF, CR, U+0020–U+D7FF, U+E000–U+FFFD, U+10000–U+10FFFF).  Exactly this set: the harness sweeps the
+code points through the real writer and QDom; the others (U+0000–U+001F except TAB/LF/CR, U+FFFE, U+FFFF) are
+silently dropped by `QXmlStreamWriter` (no setter rejects them) -/
+def xmlSafeAttr (s : Str) : Bool := s.all legalChar
+/-- a text node that survives: XML-legal characters and not white space only (QDom drops blank text) -/
+def xmlSafeText (s : Str) : Bool := s.all legalChar && !blank s
+/-- trees that survive write + read unchanged — the same predicate as `wellFormed`, under the name the
+codec tier uses: names are ASCII XML names, attribute values `xmlSafeAttr`, text nodes `xmlSafeText`,
+no two adjacent text nodes (`wellFormed_text` / `wellFormed_elem` in Qx/Proofs/Xml.lean spell it out) -/
+abbrev XmlSafe (t : Node) : Prop := wellFormed t = true
+
 /-- only element and attribute NAMES are constrained (non-empty ASCII XML names); values and text are arbitrary -/
 abbrev NamesOK (t : Node) : Prop := namesOK t = true
 /-- see `wellFormed` -/
